@@ -3,6 +3,7 @@ package main
 // C02 — DNS engine answer equals the reference resolution over all rules.
 
 import (
+	"os"
 	"fmt"
 	"go/constant"
 	"go/types"
@@ -46,6 +47,7 @@ func runC02(c *Ctx) {
 	}
 	// roles: host-table probe = callee of MatchRequest returning ([]rules.Rule, bool); insert = method of DNSEngine taking *HostRule
 	var probe, insert, poolGet *ssa.Function
+	probeFiles := false // the probe appends to the result's family lists itself
 	eachInstrG(c.P, mr, func(_ *ssa.BasicBlock, in ssa.Instruction) {
 		if ci, ok := in.(ssa.CallInstruction); ok {
 			if cal := ci.Common().StaticCallee(); cal != nil && c.P.IsLibFunc(cal) && !c.P.IsNewHelper(cal) {
@@ -56,6 +58,11 @@ func runC02(c *Ctx) {
 					if cal.Signature.Params().Len() == 1 && typeStr(cal.Signature.Params().At(0).Type()) == "string" {
 						probe = cal
 					}
+				}
+				// ... or files them into the result it is handed and reports whether it found any
+				if r.Len() == 1 && typeStr(r.At(0).Type()) == "bool" && cal.Signature.Params().Len() == 2 && typeStr(cal.Signature.Params().At(0).Type()) == "string" &&
+					strings.HasSuffix(typeStr(cal.Signature.Params().At(1).Type()), "DNSResult") && readsHostTable(c.P, cal) {
+					probe, probeFiles = cal, true
 				}
 				if r.Len() == 1 && typeStr(r.At(0).Type()) == "*rules.Request" {
 					poolGet = cal
@@ -108,6 +115,9 @@ func runC02(c *Ctx) {
 			if u.bdd.And(r.Cond, u.bdd.Xor(want, got)) != False {
 				bad = fmt.Sprintf("at %s the flag is %s but the result list is %s", c.P.Pos(r.Pos), clip(u.Show(r.Vals[1]), 80), clip(u.Show(r.Vals[0]), 80))
 			}
+		}
+		if probeFiles {
+			bad = filingFlagIsEmission(g, s, probe)
 		}
 		c.Check(bad == "", "C02.R5", shortFn(probe)+": flag == (len(result) > 0)", probe.Pos(), fmt.Sprintf("%d return sites", len(s.Rets)), bad)
 	}
@@ -383,7 +393,13 @@ func runC02(c *Ctx) {
 		M := u.ToBool(g.RetExpr(s, 1))
 		var okFlag Ref = False
 		probeRes := callProbe.Call
-		if probe.Signature.Results().Len() == 2 {
+		if probeFiles {
+			okFlag = u.ToBool(callProbe.Call)
+			// the result it files into is the one this query returns
+			if len(callProbe.Call.Args) < 3 || callProbe.Call.Args[2] != g.RetExpr(s, 0) || !(callProbe.Call.Args[2].Op == "alloc" || callProbe.Call.Args[2].Op == "new") {
+				okFlag = False
+			}
+		} else if probe.Signature.Results().Len() == 2 {
 			probeRes = u.mk("extract", "0", nil, callProbe.Call)
 			for _, at := range u.AtomsOf(M) {
 				if at.Op == "extract" && at.Aux == "1" && at.Args[0] == callProbe.Call {
@@ -409,6 +425,13 @@ func runC02(c *Ctx) {
 			fmt.Sprintf("basic rule stored exactly when non-nil=%v; matched differs from the documented flag when %s", okBasic, clip(u.ShowBool(diff), 200)))
 		// v4 / v6 split: the appends that feed the two result fields (directly, or through a helper)
 		famEms := map[string][]AEmission{}
+		if probeFiles {
+			// the filing loop is the bucket scan of the probe: judge it there
+			g = NewGate(c.P)
+			g.Inline = inlineOnly()
+			s = g.Eval(probe)
+			u = g.U
+		}
 		for _, ef := range s.Effects {
 			if ef.Kind == "store" && ef.Addr.Op == "faddr" && (ef.Addr.Aux == "HostRulesV4" || ef.Addr.Aux == "HostRulesV6") {
 				if st, ok := ef.Ins.(*ssa.Store); ok && ef.Act != nil {
@@ -459,7 +482,13 @@ func runC02(c *Ctx) {
 				// ... and the scanned collection is the lookup result
 				if bad == "" {
 					coll := loopAct.Env[rangedOver(l).Coll]
-					if coll == nil || coll.key != probeRes.key {
+					if probeFiles {
+						// the scanned collection is the bucket of the host table
+						isBucket := coll != nil && (coll.Op == "lookup" || (coll.Op == "extract" && coll.Aux == "0" && coll.Args[0].Op == "lookup"))
+						if !isBucket {
+							bad = "the loop filing host rules does not range over the bucket of the host table: " + clip(u.Show(coll), 80)
+						}
+					} else if coll == nil || coll.key != probeRes.key {
 						bad = "the loop filing host rules does not range over the result of the host-table lookup: " + clip(u.Show(coll), 80)
 					}
 				}
@@ -478,6 +507,91 @@ func runC02(c *Ctx) {
 		c.Check(bad == "", "C02.R6", "GetDNSBasicRule: no write through the argument slice", gdb.Pos(), "appends only to fresh or capacity-capped slices; no in-place operation on the argument", bad)
 	}
 	_ = types.Typ
+}
+
+// readsHostTable: fn (or a helper outside the vocabulary below it) looks a key
+// up in a map from hashes to lists of storage indexes.
+func readsHostTable(p *Prog, fn *ssa.Function) bool {
+	found := false
+	eachInstrG(p, fn, func(_ *ssa.BasicBlock, in ssa.Instruction) {
+		if lk, ok := in.(*ssa.Lookup); ok && typeStr(lk.X.Type()) == "map[uint32][]int64" {
+			found = true
+		}
+	})
+	return found
+}
+
+// filingFlagIsEmission: a probe that files the rules itself returns a
+// loop-carried flag; it is false on entry, and on every way round the scan it
+// becomes (flag || a rule was filed on this way round), so at the end it says
+// whether any rule was filed.  Returns before the scan report false.
+func filingFlagIsEmission(g *Gate, s *Summary, probe *ssa.Function) string {
+	u := g.U
+	ems := emissionsG(g, s, 0)
+	if len(ems) == 0 {
+		return "UNDECIDED: the probe files nothing"
+	}
+	var EM Ref = False
+	for _, em := range ems {
+		EM = u.bdd.Or(EM, em.RC)
+	}
+	var kE *E
+	for _, l := range loopsOf(probe) {
+		for _, in := range l.Header.Instrs {
+			ph, ok := in.(*ssa.Phi)
+			if !ok {
+				break
+			}
+			if b, isB := ph.Type().Underlying().(*types.Basic); !isB || b.Kind() != types.Bool {
+				continue
+			}
+			e := s.Env[ph]
+			if e == nil || e.Op != "loopphi" {
+				continue
+			}
+			kRef := u.ToBool(e)
+			ok2 := true
+			for i, pr := range l.Header.Preds {
+				if !l.Blocks[pr] {
+					if cv, isC := ph.Edges[i].(*ssa.Const); !isC || cv.Value == nil || cv.Value.String() != "false" {
+						ok2 = false
+					}
+					continue
+				}
+				kv := s.Env[ph.Edges[i]]
+				if kv == nil {
+					if cv, isC := ph.Edges[i].(*ssa.Const); isC && cv.Value != nil {
+						kv = u.ConstVal(cv.Value, cv.Type())
+					}
+				}
+				if kv == nil || u.bdd.And(edgeCondOf(u, s, pr, l.Header), u.bdd.Xor(u.ToBool(kv), u.bdd.Or(kRef, EM))) != False {
+					ok2 = false
+					if os.Getenv("UFCHECK_DEBUG_C02") != "" && kv != nil {
+						fmt.Fprintf(os.Stderr, "C02DBG edge %d kv=%s RC=%s EM=%s\n", i, u.Show(kv), clip(u.ShowBool(s.RC[pr]), 300), clip(u.ShowBool(EM), 300))
+					}
+				}
+			}
+			if ok2 {
+				kE = e
+			}
+		}
+	}
+	if kE == nil {
+		return "the flag the probe returns is not 'a rule was filed in some iteration of the bucket scan' (false on entry, flag || filed on every way round)"
+	}
+	for _, r := range s.Rets {
+		if r.Cond == False || len(r.Vals) != 1 {
+			continue
+		}
+		if r.Vals[0] == kE {
+			continue
+		}
+		if r.Vals[0].Op == "bool" && r.Vals[0].B == False && u.bdd.And(r.Cond, EM) == False {
+			continue
+		}
+		return "a return reports " + clip(u.Show(r.Vals[0]), 60) + ", which is not the filed-something flag"
+	}
+	return ""
 }
 
 // isScannerLoop: the loop is driven by a Scan() call in its header region
